@@ -117,6 +117,23 @@ def check_case(case):
                 sub = {"t": str(t), "n": n, "form": form}
                 res.state((N, str(dtype), ss, case["rate"], case["start"], tq, n, form))
                 one_call(res, case, z, zdata, XL, N, is_c, T0, srx, targ, teff, delta, n, form, sub)
+    # assignment history on one object: read dt, assign another sample_rate, then a fractional request
+    if N >= 5 and T0 is not None:
+        zz = type(z).like(z)
+        _ = (zz.dt, zz.time_length)
+        try:
+            pb.snippet(zz, 1.5, 2)
+            zz.sample_rate = zz.sample_rate / 4
+            out = pb.snippet(zz, 2.5, 2)
+            res.transitions += 2
+            sr2 = hz(zz.sample_rate)
+            err = abs(T(out.start_time) - T0 - F(5, 2) / sr2 / 86400)
+            if err > 6 * ULP_T + F(1, 10 ** 6) / sr2 / 86400:
+                res.violation("snippet|assignment history|start_time", f"after reading dt and assigning sample_rate/4, snippet(z, 2.5, 2) "
+                              f"starts {float((T(out.start_time) - T0) * 86400 * sr2):.6g} samples after z.start_time", case, None)
+            res.hits["sample_rate assigned before a fractional request"] += 1
+        except Exception as e:
+            res.violation("snippet|assignment history|raised", f"{type(e).__name__}: {e}", case, None)
     res.sample({"N": N, "dtype": str(dtype), "ss": list(ss), "rate": case["rate"], "start": case["start"],
                 "example": "snippet(z, 2.25 samples as %s, 3)" % case["unit"]}, 1)
     return res
@@ -272,7 +289,7 @@ def main(argv=None):
     return report.run_check(
         PID, gen_cases=gen_cases, check_case=check_case, describe=describe,
         required_hits=["Time on start-less signal rejected", "out of range rejected", "n = 0",
-                       "whole-sample count (bit-exact slice)", "fractional (DFT interpolation)", "long signal, large offset", "request a few nano-samples off a whole sample"],
+                       "whole-sample count (bit-exact slice)", "fractional (DFT interpolation)", "long signal, large offset", "request a few nano-samples off a whole sample", "sample_rate assigned before a fractional request"],
         assumptions=["the instant a request denotes is computed exactly from the form given (count / Quantity / Time); "
                      "resolution allowance 0 / 1e-15 rel / 4 ulp_T*sr samples",
                      "start_time of an empty (n=0) result is unconstrained",
